@@ -195,6 +195,14 @@ class AServer(srv.ASrvHarness):
             dict(topo='seq', capacity=3, gated=['B'], fail={'A': [1]}, prefail={'B': [2]}, calls=three, oracles=O, bound=d, cap=cap),
             dict(topo='single', capacity=2, calls=[[[10, BIG, False]]], stream=dict(xs=[0, 1, 2], rex=True), fail={'A': [1]},
                  oracles=O, bound=d, cap=cap),
+            # a saturated server: several tasks wait inside _enqueue for a free slot
+            dict(topo='single', capacity=1, calls=[[[0, BIG, False]], [[1, BIG, False]], [[2, BIG, False]]], oracles=O, bound=d, cap=cap),
+            dict(topo='single', capacity=2, nworkers=2, gated=['A'], env_wait=True,
+                 calls=[[[0, BIG, False]], [[1, BIG, False]], [[2, BIG, False]], [[3, BIG, False]]], oracles=O, bound=0 if quick else 1, cap=cap),
+            dict(topo='single', capacity=2, calls=[[[0, BIG, False]], [[1, BIG, False]], [[2, BIG, False]], [[3, BIG, False]]],
+                 oracles=O, bound=d, cap=cap),
+            dict(topo='single', capacity=1, gated=['A'], calls=[[[10, BIG, False]], [[11, BIG, False]]], stream=dict(xs=[0, 1], rex=True),
+                 oracles=O, bound=d, cap=cap),
         ]
 
 
